@@ -11,6 +11,6 @@ UNIT = {
  'tasks': [
   {'id': 'new_hill', 'properties': ['C05'], 'slices': ['new_hill'], 'harness': 'h_new_hill', 'enforce': 'k_new_hill', 'replace': ['k_boltzmann'], 'unwind': 6,
    'mutants': [('-1.0*hills_energy_sum_here/(bias_temperature*proxy->boltzmann())', '-1.0*hills_energy_sum_here/(bias_temperature)'), ('hill_weight*hills_scale,\n                    colvar_values, colvar_sigmas));\n\n      break;', 'hill_weight,\n                    colvar_values, colvar_sigmas));\n\n      break;'),
-               ('hills_scale *= cvm::exp(', 'hills_scale = cvm::exp(1.0 + '), ('if (use_grids) {', 'if (!use_grids) {'), ('-1.0*hills_energy_sum_here', '1.0*hills_energy_sum_here')]},
+               ('hills_scale *= cvm::exp(', 'hills_scale = cvm::exp(1.0 + '), ('if (use_grids) {', 'if (!use_grids) {'), ('if (hills_energy->index_ok(curr_bin)) {', 'if (true) {'), ('calc_hills(hills_off_grid.begin(), hills_off_grid.end(), hills_energy_sum_here, NULL);', 'calc_hills(new_hills_begin, hills.end(), hills_energy_sum_here, NULL);'), ('-1.0*hills_energy_sum_here', '1.0*hills_energy_sum_here')]},
  ],
 }
